@@ -139,6 +139,23 @@ func call(b kafka.GroupBalancer, ms []member, ps []part) (res string) {
 //	fparts <topic> <parts>      -> findPartitions(topic, parts)
 func helpers(ms []member, ps []part, topics int) {
 	gm, gp := toGo(ms, ps)
+	{ // xtopics <members> -> extractTopics(members) as topic numbers in ascending numeric order (a set: Go sorts the names)
+		var ts []int
+		bad := false
+		for _, t := range kafka.VerifExtractTopics(gm) {
+			n, err := strconv.Atoi(strings.TrimPrefix(t, "t"))
+			if err != nil {
+				bad = true
+			}
+			ts = append(ts, n)
+		}
+		sort.Ints(ts)
+		o := ints(ts)
+		if bad {
+			o = "bad-topic"
+		}
+		fmt.Fprintf(out, "xtopics %s\t%s\n", fmtMembers(ms), o)
+	}
 	byTopic := kafka.VerifFindMembersByTopic(gm)
 	for t := 0; t < topics; t++ {
 		var ids []string
